@@ -2,6 +2,7 @@
 from harness.common import guarded
 
 ID = "C16"
+ERR_CLASS = True
 LEAN_MODULE = "BioCantor.Props.C16"
 DESIGN_REF = "4/C16"
 DRIVER = "drivers/C16.lean"
